@@ -33,6 +33,7 @@ FUNCTIONS = {'spil/sid/pathops/write_paths.py': ['WriteToPaths.create', 'WriteTo
 TRUSTED = ['pathlib / os / json / shutil primitives as modelled in pyvc.fsmodel (assumed contracts)']
 ASSUMPTIONS = ['one concrete example Sid per template; data documents symbolic (two stored entries, one or two written pairs)',
                "'is found by every matching search' and visibility to a new process are consequences of fs being the only state (finders are uncached: C13 scan) -- not proved about a real file system"]
+BOUNDED = ['one concrete example Sid per template; the initial states of the ghost file system are enumerated (entity absent / present, sidecar absent / document / owned by a sibling, how much of the ancestor chain exists); stored and written keys and values are symbolic']
 EXPLANATION = 'transition contracts of create / update / set / get_data over a ghost file system, for every template, from every relevant initial state; sidecar-name lemma'
 BUDGET_S = {'quick': 900, 'thorough': 2400}
 
